@@ -62,7 +62,7 @@ Definition judge (c : cfg) (a : astate) (o : srv_op) (x : expect) (r : srv_out) 
           else Ok
       | XProps p =>
           match resp with
-          | 11 :: p' :: _ => if p' =? p then Ok else Bad t_properties_match
+          | h :: p' :: _ => if (h =? 11) && negb (p' =? p) then Bad t_properties_match else Ok
           | _ => Ok
           end
       | _ =>
